@@ -729,14 +729,6 @@ fn facts(rep: &mut Report, tier: &str) {
             if offs.len() == 3 && (offs[2] != real_offs) {
                 rep.mismatch("payload offsets of a #[repr(u8)] mirror differ from the model's", json!({"type": d.roto(), "real": real_offs, "model": ans}));
             }
-            if offs.len() == 3 && offs[0] != real_offs {
-                // Roto would read the payload somewhere else than rustc put it
-                rep.violation(
-                    "Roto's variant-field offset differs from rustc's payload offset",
-                    &format!("layout:offset:{}", d.class()),
-                    json!({"type": d.roto(), "rustc": real_offs, "roto_model": offs[0], "model": ans}),
-                );
-            }
         }
         // the compiler's own facts for `fn main(x: T) -> T`
         let src = format!("fn main(x: {t}) -> {t} {{ x }}\n", t = d.roto());
@@ -772,6 +764,29 @@ fn facts(rep: &mut Report, tier: &str) {
         let real_ref = match m.ret.is_reference_type { Some(true) => "1", Some(false) => "0", None => "-" };
         if isref != real_ref {
             rep.mismatch("Pool::is_reference_type differs from the model", json!({"type": d.roto(), "real": real_ref, "model": ans}));
+        }
+        // where `Lowerer::location` puts field 0 of each variant
+        if !pr.variants.is_empty() {
+            let real_offs: Vec<String> = pr.variants.iter().map(|(_, o)| o.map(|x| x.to_string()).unwrap_or("-".into())).collect();
+            let real_offs = real_offs.join(",");
+            match &m.ret.variant_offsets {
+                Some(vo) => {
+                    let loc: Vec<String> = vo.iter().map(|o| o.map(|x| x.to_string()).unwrap_or("-".into())).collect();
+                    let loc = loc.join(",");
+                    if offs.len() == 3 && offs[0] != loc {
+                        rep.mismatch("Lowerer::location's variant-field offsets differ from the model", json!({"type": d.roto(), "real": loc, "model": ans}));
+                    }
+                    if loc != real_offs {
+                        // Roto reads the payload somewhere else than rustc put it
+                        rep.violation(
+                            "Roto's variant-field offset differs from rustc's payload offset",
+                            &format!("layout:offset:{}", d.class()),
+                            json!({"type": d.roto(), "rustc": real_offs, "roto": loc}),
+                        );
+                    }
+                }
+                None => rep.mismatch("hook: an Option/Result/Verdict is not an enum in the MIR", json!({"type": d.roto()})),
+            }
         }
         sig_check(&mut drv, rep, &hl, &dump, "pkg.main", d, std::slice::from_ref(d), &src);
         rep.class(format!("facts:{}", d.class()));
